@@ -43,8 +43,8 @@ PROPERTIES = {
     ),
     'C10': dict(
         units=['u_dataset'],
-        finders=['find_store_consistency'],
-        level_text="Deductive proof (Verus/Z3) over the real AnnotationDataSet code that (1) the key -> data reverse index is exact at all times: the StoreCallbacks implementations for AnnotationData and DataKey (inserted / preremove) re-establish 'row k lists exactly the live data with key k, each once' around every insertion and removal, removing a key clears only its own row, and the generic StoreFor::insert/remove (proved once, instantiated here on the real accessors) pass the callbacks' effect on to their callers and keep each key and each id unique; (2) data_by_value(key, value) returns a live item with that key and an equal value, and returns None only if no live item carries that pair; (3) the de-duplicating tail of insert_data: for an id-less insertion with safety on, if a live item with the same (key, value) exists it is returned and the dataset is unchanged, otherwise exactly one item with that key and value is appended, and the index is exact again afterwards.",
+        finders=['find_store_consistency', 'find_data_search'],
+        level_text="Deductive proof (Verus/Z3) over the real AnnotationDataSet code that (1) the key -> data reverse index is exact at all times: the StoreCallbacks implementations for AnnotationData and DataKey (inserted / preremove) re-establish 'row k lists exactly the live data with key k, each once' around every insertion and removal, removing a key clears only its own row, and the generic StoreFor::insert/remove (proved once, instantiated here on the real accessors) pass the callbacks' effect on to their callers and keep each key and each id unique; (2) data_by_value(key, value) returns a live item with that key and an equal value, and returns None only if no live item carries that pair; (3) the de-duplicating tail of insert_data: for an id-less insertion with safety on, if a live item with the same (key, value) exists it is returned and the dataset is unchanged, otherwise exactly one item with that key and value is appended, and the index is exact again afterwards. (4) Bounded stand-in, thorough tier only, labelled and never counted as proved: DataValue::test against the documented comparison semantics written out independently (13 values of five types x 19 operators including cross-type Equals, Not, And, Or) and find_data by key, by value and by both against a full scan (string parsing, floats and boxed iterators are outside the verifier's reach).",
         level_note="Trusted: DataValue equality is an uninterpreted relation (veq: the derived ==); random id generation (generate_id); the changed-flag write (mark_changed) is dropped; HashMap<String,H> model; vx_position. insert_data is verified as a region: the BuildItem resolution at its head (lookup of the id, key creation) is not verified and enters as preconditions (the id does not resolve, the key is live). Not decided: DataValue::test comparison semantics, find_data iterators, AnnotationStore::insert_data (implicit dataset creation).",
         design_ref='DESIGN.md §7.9',
         explanation="dataset invariant kd_wf as a pre/postcondition pair of the real callbacks, carried through the generic insert/remove; de-duplication as a postcondition of the real insert_data tail over data_by_value's contract",
